@@ -1,6 +1,7 @@
 // C14 — trapezoidal and bell-shaped (double-S) velocity profiles: boundary states, limits,
 // continuity at every phase boundary, phase bookkeeping, hold outside [0,T], and
 // vel = d pos/dt (acc = d vel/dt, jer = d acc/dt) so that the limits speak about the motion.
+#include "../drv/enum.h"
 #include "../drv/vp.h"
 #include <algorithm>
 #include <cmath>
@@ -174,81 +175,8 @@ static bool bell_feasible(LD jm, LD am, LD q, LD v0, LD v1)
     return q > 0.5L * (v0 + v1) * (tj + dv / am);
 }
 
-static void case_bell(Tape &t, Ctx &cx)
+static void bell_oracle(Ctx &cx, double jm, double am, double vm, double p0, double p1, double v0, double v1, double dist, int dir, double cv0, double cv1)
 {
-    double vm = loguni(t, 0.05, 200), am = loguni(t, 0.05, 200), jm = loguni(t, 0.05, 200);
-    double dist = loguni(t, 1e-3, 1e4);
-    int dir = t.coin() ? 1 : -1;
-    double p0 = (double(t.u16()) / 65535.0 - 0.5) * 2000.0;
-    if (t.u8() % 4 == 0) { p0 = 0; }
-    bool o0, o1;
-    double v0 = gen_bv(t, cx, vm, dir, o0), v1 = gen_bv(t, cx, vm, dir, o1);
-    uint8_t lsel = t.u8();
-    if (lsel % 3 == 1 && (lsel / 3) % 3 == 0)
-    {
-        // grey-box class: the planner's no-cruise search tries accelerations am * k / 2^n; a single-phase request (acceleration
-        // or deceleration only) whose switch-over acceleration a1 - where the other phase just vanishes,
-        // |p1 - p0| = (vf - vs)(vf + vs - a1^2/jm) / (2 a1) - sits within 1e-9 .. 1e-15 of such a value is where the search and
-        // the closed form hand over to each other. Steers the generator only.
-        jm = loguni(t, 0.05, 200);
-        am = loguni(t, 0.05, 200);
-        unsigned nb = 1 + t.u8() % 5, kk = 1 + t.u8() % ((1u << nb) - 0);
-        if (kk > (1u << nb)) { kk = 1u << nb; }
-        long double eps = powl(10.0L, -9.0L - (long double)(t.u8() % 7));
-        if (t.coin()) { eps = -eps; }
-        long double a1 = (long double)am * kk / (long double)(1u << nb) * (1 + eps);
-        long double vlo = a1 * a1 / jm; // vs + vf has to exceed this
-        long double vs = vlo * (0.05L + 0.9L * t.u8() / 255.0L), vf = vlo * (1.0L + 0.05L + 2.0L * t.u8() / 255.0L) - vs;
-        if (vf < vs) { std::swap(vs, vf); }
-        long double pp = (vf - vs) * (vf + vs - a1 * a1 / jm) / (2 * a1);
-        vm = double(vf * (1.0L + t.u8() / 64.0L)) + 1e-3;
-        bool accel_only = t.coin();
-        v0 = double(accel_only ? vs : vf) * dir;
-        v1 = double(accel_only ? vf : vs) * dir;
-        dist = double(pp);
-        p0 = 0; // p1 - p0 has to carry the constructed distance to the last bit
-        o0 = o1 = false;
-        cx.label(L_SEARCH_GRID);
-        if (!(dist > 0) || !std::isfinite(dist)) { dist = 1; }
-    }
-    if (lsel % 3 == 0)
-    {
-        // lattice class: every quantity a small multiple of one step (1, 1/10, 1/8, 1/4). Continuous draws never produce the exact
-        // coincidences between internal quantities (a bisection value hitting a switch-over point, two phase times being equal)
-        // that such round numbers produce all the time
-        static double const steps[] = {1.0, 0.1, 0.125, 0.25};
-        double q = steps[t.u8() % 4];
-        jm = q * (1 + t.u8() % 60);
-        am = q * (1 + t.u8() % 60);
-        vm = q * (1 + t.u8() % 60);
-        dist = q * (1 + t.u8() % 120);
-        p0 = t.coin() ? 0.0 : q * (int(t.u8()) - 128);
-        int nv = int(vm / q + 0.5);
-        v0 = q * (int(t.u8() % unsigned(2 * nv + 1)) - nv);
-        v1 = q * (int(t.u8() % unsigned(2 * nv + 1)) - nv);
-        if (t.u8() % 3 == 0) { v0 = 0; }
-        if (t.u8() % 3 == 0) { v1 = 0; }
-        o0 = v0 * dir < 0;
-        o1 = v1 * dir < 0;
-        cx.label(L_LATTICE);
-    }
-    double cv0 = std::fmin(std::fmax(v0, -vm), vm), cv1 = std::fmin(std::fmax(v1, -vm), vm);
-    // repair infeasible draws by enlarging the distance (construction, not rejection)
-    {
-        LD m0 = dir * (LD)cv0, m1 = dir * (LD)cv1;
-        int guard = 0;
-        while (!bell_feasible(jm, am, dist, m0, m1) && guard++ < 60)
-        {
-            dist *= 2;
-            cx.label(L_REPAIRED);
-        }
-        // stay clear of the feasibility boundary itself
-        if (guard) { dist *= 1.5; }
-    }
-    double p1 = p0 + dir * dist;
-    cx.label(L_BELL);
-    if (dir < 0) { cx.label(L_REVERSED); }
-    if ((o0 && v0 != 0) || (o1 && v1 != 0)) { cx.label(L_OPPOSING_V0); }
     cx.hash.add(2);
     for (double x : {jm, am, vm, p0, p1, v0, v1}) { cx.hash.addd(x); }
     cx.log("bell jm=%.17g am=%.17g vm=%.17g p0=%.17g p1=%.17g v0=%.17g v1=%.17g\n", jm, am, vm, p0, p1, v0, v1);
@@ -363,6 +291,87 @@ static void case_bell(Tape &t, Ctx &cx)
     }
 }
 
+static void case_bell(Tape &t, Ctx &cx)
+{
+    double vm = loguni(t, 0.05, 200), am = loguni(t, 0.05, 200), jm = loguni(t, 0.05, 200);
+    double dist = loguni(t, 1e-3, 1e4);
+    int dir = t.coin() ? 1 : -1;
+    double p0 = (double(t.u16()) / 65535.0 - 0.5) * 2000.0;
+    if (t.u8() % 4 == 0) { p0 = 0; }
+    bool o0, o1;
+    double v0 = gen_bv(t, cx, vm, dir, o0), v1 = gen_bv(t, cx, vm, dir, o1);
+    uint8_t lsel = t.u8();
+    if (lsel % 3 == 1 && (lsel / 3) % 3 != 2)
+    {
+        // grey-box class: the planner's no-cruise search tries accelerations am * k / 2^n; a single-phase request (acceleration
+        // or deceleration only) whose switch-over acceleration a1 - where the other phase just vanishes,
+        // |p1 - p0| = (vf - vs)(vf + vs - a1^2/jm) / (2 a1) - sits within 1e-9 .. 1e-15 of such a value is where the search and
+        // the closed form hand over to each other. Steers the generator only.
+        jm = loguni(t, 0.05, 200);
+        am = loguni(t, 0.05, 200);
+        unsigned nb = 1 + t.u8() % 5, kk = 1 + t.u8() % ((1u << nb) - 0);
+        if (kk > (1u << nb)) { kk = 1u << nb; }
+        uint8_t eb = t.u8();
+        long double eps = powl(10.0L, -9.0L - (long double)(eb % 7)) * (1 + (eb / 7) % 8); // 1e-9 .. 8e-15, mostly just above the grid value
+        if ((eb >> 6) == 0) { eps = -eps; }
+        long double a1 = (long double)am * kk / (long double)(1u << nb) * (1 + eps);
+        long double vlo = a1 * a1 / jm; // vs + vf has to exceed this
+        long double vs = vlo * (0.05L + 0.9L * t.u8() / 255.0L), vf = vlo * (1.0L + 0.05L + 2.0L * t.u8() / 255.0L) - vs;
+        if (vf < vs) { std::swap(vs, vf); }
+        long double pp = (vf - vs) * (vf + vs - a1 * a1 / jm) / (2 * a1);
+        vm = double(vf * (1.0L + t.u8() / 64.0L)) + 1e-3;
+        bool accel_only = t.coin();
+        v0 = double(accel_only ? vs : vf) * dir;
+        v1 = double(accel_only ? vf : vs) * dir;
+        dist = double(pp);
+        p0 = 0; // p1 - p0 has to carry the constructed distance to the last bit
+        o0 = o1 = false;
+        cx.label(L_SEARCH_GRID);
+        if (!(dist > 0) || !std::isfinite(dist)) { dist = 1; }
+    }
+    if (lsel % 3 == 0)
+    {
+        // lattice class: every quantity a small multiple of one step (1, 1/10, 1/8, 1/4). Continuous draws never produce the exact
+        // coincidences between internal quantities (a bisection value hitting a switch-over point, two phase times being equal)
+        // that such round numbers produce all the time
+        static double const steps[] = {1.0, 0.1, 0.125, 0.25, 0.5, 0.2, 1.0, 0.5};
+        uint8_t sb = t.u8();
+        double q = steps[sb % 8];
+        unsigned span = (sb & 8) ? 60 : 8; // mostly single digits: coincidences are far more frequent on a coarse lattice
+        jm = q * (1 + t.u8() % span);
+        am = q * (1 + t.u8() % span);
+        vm = q * (1 + t.u8() % span);
+        dist = q * (1 + t.u8() % (2 * span));
+        p0 = t.coin() ? 0.0 : q * (int(t.u8()) - 128);
+        int nv = int(vm / q + 0.5);
+        v0 = q * (int(t.u8() % unsigned(2 * nv + 1)) - nv);
+        v1 = q * (int(t.u8() % unsigned(2 * nv + 1)) - nv);
+        if (t.u8() % 3 == 0) { v0 = 0; }
+        if (t.u8() % 3 == 0) { v1 = 0; }
+        o0 = v0 * dir < 0;
+        o1 = v1 * dir < 0;
+        cx.label(L_LATTICE);
+    }
+    double cv0 = std::fmin(std::fmax(v0, -vm), vm), cv1 = std::fmin(std::fmax(v1, -vm), vm);
+    // repair infeasible draws by enlarging the distance (construction, not rejection)
+    {
+        LD m0 = dir * (LD)cv0, m1 = dir * (LD)cv1;
+        int guard = 0;
+        while (!bell_feasible(jm, am, dist, m0, m1) && guard++ < 60)
+        {
+            dist *= 2;
+            cx.label(L_REPAIRED);
+        }
+        // stay clear of the feasibility boundary itself
+        if (guard) { dist *= 1.5; }
+    }
+    double p1 = p0 + dir * dist;
+    cx.label(L_BELL);
+    if (dir < 0) { cx.label(L_REVERSED); }
+    if ((o0 && v0 != 0) || (o1 && v1 != 0)) { cx.label(L_OPPOSING_V0); }
+    bell_oracle(cx, jm, am, vm, p0, p1, v0, v1, dist, dir, cv0, cv1);
+}
+
 static void run_case(Tape &t, Ctx &cx)
 {
     ++cx.rep->subcases;
@@ -370,3 +379,53 @@ static void run_case(Tape &t, Ctx &cx)
     else { case_bell(t, cx); }
 }
 VP_DEFINE_RUN(run_case)
+
+// ---------------------------------------------------------------------------------------
+// Exhaustive lattice: every bell request whose seven quantities are small multiples of one step. Round numbers make internal
+// quantities coincide exactly (a search value with a switch-over point, two phase times) - measure-zero events for the
+// continuous generator, everyday inputs for users. Only feasible requests are judged, and only when a positive duration is
+// reported (the statement's premise).
+extern "C" int vp_enum(unsigned shard, unsigned nshards, int tier, vp_enum_stats *st)
+{
+    static double const steps0[] = {1.0, 0.5}, steps1[] = {1.0, 0.5, 0.25, 0.1};
+    double const *steps = tier ? steps1 : steps0;
+    unsigned nsteps = tier ? 4 : 2;
+    int const K = tier ? 6 : 5, KV = tier ? 10 : 8, KD = tier ? 12 : 8;
+    uint64_t cnt = 0, judged = 0, idx = 0;
+    int bad = 0;
+    for (unsigned si = 0; si < nsteps; ++si)
+    {
+        double q = steps[si];
+        for (int ij = 1; ij <= K; ++ij) { for (int ia = 1; ia <= K; ++ia) { for (int iv = 1; iv <= KV; ++iv) { for (int id = 1; id <= KD; ++id)
+        {
+            if (idx++ % nshards != shard) { continue; }
+            double jm = q * ij, am = q * ia, vm = q * iv, dist = q * id;
+            for (int i0 = -iv; i0 <= iv; ++i0) { for (int i1 = -iv; i1 <= iv; ++i1) { for (int dir = 1; dir >= -1; dir -= 2)
+            {
+                double v0 = q * i0, v1 = q * i1, p0 = (i0 + i1) & 1 ? q * 3 : 0.0, p1 = p0 + dir * dist;
+                ++cnt;
+                if (!bell_feasible(jm, am, dist, dir * (LD)v0, dir * (LD)v1)) { continue; }
+                vp_report rep;
+                Ctx cx(&rep);
+                try
+                {
+                    bell_oracle(cx, jm, am, vm, p0, p1, v0, v1, dist, dir, v0, v1);
+                    if (!rep.excluded) { ++judged; }
+                }
+                catch (vp_fail const &)
+                {
+                    char msg[400];
+                    snprintf(msg, sizeof(msg), "%s: %s (jm=%g am=%g vm=%g p0=%g p1=%g v0=%g v1=%g)", rep.sig.c_str(), rep.msg.c_str(), jm, am, vm, p0, p1, v0, v1);
+                    st->violation(msg);
+                    if (++bad >= 5) { goto done; }
+                }
+            } } }
+        } } } }
+    }
+done:
+    st->domain(tier ? "bell requests on the lattices jm, am in q*{1..6}, vm in q*{1..10}, distance q*{1..12}, boundary speeds q*{-vm..vm}, both directions, q in {1, 1/2, 1/4, 1/10} (this shard)"
+                    : "bell requests on the lattices jm, am in q*{1..5}, vm in q*{1..8}, distance q*{1..8}, boundary speeds q*{-vm..vm}, both directions, q in {1, 1/2} (this shard)", cnt, bad == 0);
+    st->s.evaluations = cnt;
+    st->s.nontrivial = judged;
+    return bad;
+}
